@@ -264,6 +264,10 @@ func runC16(c *core.Ctx) {
 			}
 		}
 	}
+	// frozen-fund / waitlist / stake records rebuilt from existing ones keep all persisted fields
+	// (the move target and the candidate key travel with the item until it matures)
+	nc := checkPartialCopies(c, "C16.copy", core.PkgState+"/frozenfunds", core.PkgState+"/waitlist", core.PkgState+"/candidates")
+	c.Add("C16.copy", "summary", token.NoPos, core.Discharged, fmt.Sprintf("%d record copies found in the frozen-funds, waitlist and candidates modules", nc))
 	c.Floor("C16.lock", c.Count("C16.lock"), 3, "unbond effects")
 	c.Floor("C16.target", c.Count("C16.target"), 2, "move-stake target obligations")
 }
